@@ -454,15 +454,17 @@ func (txn *Txn[T]) Commit() Trie[T] {
 // longestMatch returns the number of common prefix bits.
 // [startLen] is the number of bits we already know are shared between [node.ke] and [keyData].
 func longestMatch[T any](startLen PrefixLen, node *lpmNode[T], keyData []byte, keyPrefixLen PrefixLen) PrefixLen {
-	keySize := uint16(min(len(node.key), len(keyData)))
-	startLenBytes := startLen / 8
+	// The bit count is kept in an int: as a PrefixLen (uint16) it would wrap
+	// around to 0 when 8192 whole bytes match.
+	keySize := min(len(node.key), len(keyData))
+	startLenBytes := int(startLen / 8)
 	prefixLen := 8 * startLenBytes
 	nodePrefixLen := node.prefixLen()
 	minPrefixLen := min(nodePrefixLen, keyPrefixLen)
 	for i := startLenBytes; i < keySize; i++ {
 		matchLenInByte := bits.LeadingZeros8(node.key[i] ^ keyData[i])
-		prefixLen += PrefixLen(matchLenInByte)
-		if prefixLen >= minPrefixLen {
+		prefixLen += matchLenInByte
+		if prefixLen >= int(minPrefixLen) {
 			return minPrefixLen
 		}
 		if matchLenInByte < 8 {
@@ -470,7 +472,7 @@ func longestMatch[T any](startLen PrefixLen, node *lpmNode[T], keyData []byte, k
 			break
 		}
 	}
-	return prefixLen
+	return PrefixLen(prefixLen)
 }
 
 func lpmLookup[T any](root *lpmNode[T], key index.Key) (value T, ok bool) {
